@@ -5,6 +5,7 @@ CONSTANTS NMsgs = 3
  LostExc = TRUE
  WithUser = TRUE
  WithLost = TRUE
+ WithStop = FALSE
  WithConnector = TRUE
  MaxConn = 3
 INVARIANT NoExceptionIntoPump
